@@ -176,7 +176,7 @@ RULES.append(("C03.j", "await inventory: only futures whose completion rule is c
 
 def rule_mustpass(ctx):
     from . import mustpass
-    mustpass.check(ctx, ['send-completes-after-wait', 'send-ok-notifies-receiver', 'recv-runs-handler', 'recv-notifies-sender', 'output-send-broadcasts', 'requestor-send-broadcasts', 'process-event-runs', 'process-query-runs', 'senders-create-channel-send', 'senders-await-channel-send', 'sink-senders-write', 'direct-sends-await', 'output-broadcast-polls', 'source-broadcast-polls', 'event-source-broadcasts', 'connect-registers', 'port-send-throws', 'source-send-throws', 'model-task-receives', 'model-task-ends-only-on-error-or-abort'])
+    mustpass.check(ctx, ['send-completes-after-wait', 'send-ok-notifies-receiver', 'recv-runs-handler', 'recv-notifies-sender', 'output-send-broadcasts', 'requestor-send-broadcasts', 'process-event-runs', 'process-query-runs', 'senders-create-channel-send', 'senders-await-channel-send', 'sink-senders-write', 'direct-sends-await', 'output-broadcast-polls', 'source-broadcast-polls', 'event-source-broadcasts', 'connect-registers', 'port-send-throws', 'source-send-throws', 'model-task-receives', 'model-task-ends-only-on-error-or-abort', 'scratchpad-refreshes-when-behind', 'scratchpad-copies-shared-value'])
 
 
 RULES.append(("C03.k", "must-pass-through: no path around the effects this property rests on (added fast paths / early returns)", rule_mustpass))
